@@ -172,6 +172,31 @@ def step (_c : Cfg) (s : State) : Action → State
       | [] => s
   | .mDone => { s with main := .done }
 
+/-! ### independence of steps (partial-order reduction of the schedule enumeration) -/
+
+/-- the worker lineage an action belongs to -/
+def lin : Action → Option Nat
+  | .wBegin w | .wGet w | .wPut w | .wRaise w | .wRetire w | .wCallback w => some w
+  | _ => none
+
+/-- steps that read and write nothing but their own lineage's state (`wBegin` also sets the event) -/
+def isLocal : Action → Bool
+  | .wBegin _ | .wRaise _ | .wRetire _ => true
+  | _ => false
+
+def indep1 (a b : Action) : Bool :=
+  (isLocal a && lin b != lin a) ||
+  (match a, b with
+   | .loadTake, .wPut _ | .loadTake, .wGet _ | .loadTake, .wCallback _ | .loadTake, .mEvent => true
+   | .loadPut, .wPut _ | .loadPut, .wCallback _ | .loadPut, .cGet | .loadPut, .mEvent => true
+   | .wGet w, .wPut w' | .wGet w, .wCallback w' => w != w'
+   | .wGet _, .cGet | .wGet _, .mEvent | .wPut _, .mEvent => true
+   | _, _ => false)
+
+/-- two actions whose order does not matter (they touch disjoint parts of the state): the table the harness' sleep-set
+enumeration uses; `step_comm` proves that it is sound -/
+def indep (a b : Action) : Bool := indep1 a b || indep1 b a
+
 /-- run a trace; `none` as soon as an action is not enabled -/
 def runTrace (c : Cfg) : State → List Action → Option State
   | s, [] => some s
